@@ -856,6 +856,8 @@ void matrixSslDeleteSession(ssl_t *ssl)
 # ifdef USE_STATELESS_SESSION_TICKETS
     if ((ssl->flags & SSL_FLAGS_SERVER) && ssl->sid)
     {
+        /* (DTLS keeps its NewSessionTicket message here for retransmits) */
+        psFree(ssl->sid->sessionTicket, ssl->sid->pool);
         psFree(ssl->sid, ssl->sPool);
         ssl->sid = NULL;
     }
@@ -2224,6 +2226,15 @@ void sslResetContext(ssl_t *ssl)
     if (ssl->flags & SSL_FLAGS_SERVER)
     {
         matrixClearSession(ssl, 0);
+# if defined(USE_STATELESS_SESSION_TICKETS) && defined(USE_DTLS)
+        if (ssl->sid && ssl->sid->sessionTicket)
+        {
+            /* NewSessionTicket kept for retransmits of the last handshake */
+            psFree(ssl->sid->sessionTicket, ssl->sid->pool);
+            ssl->sid->sessionTicket = NULL;
+            ssl->sid->sessionTicketLen = 0;
+        }
+# endif
     }
 #endif /* USE_SERVER_SIDE_SSL */
 
